@@ -105,7 +105,10 @@ pub fn ev_hp(sh: &mut Shards, rng: &mut Rng, data: &[u8]) {
     );
 }
 pub fn drive_hashes(a: &Args, w: &Words, thorough: bool) {
-    let mut sh = Shards::new(&a.out, "hash", a.shards);
+    drive_hashes_scaled(a, w, "hash", if thorough { 3_000_000 } else { 150_000 })
+}
+pub fn drive_hashes_scaled(a: &Args, w: &Words, prefix: &str, budget: usize) {
+    let mut sh = Shards::new(&a.out, prefix, a.shards);
     let mut rng = Rng::new(a.seed ^ 0xf0f0);
     // the complete FNV table: reach all 64 states through the public API, then one step with every byte
     sh.next_unit();
@@ -137,7 +140,6 @@ pub fn drive_hashes(a: &Args, w: &Words, thorough: bool) {
         }
     }
     let mut bytes = 0usize;
-    let budget = if thorough { 3_000_000 } else { 150_000 };
     while bytes < budget {
         sh.next_unit();
         let len = match rng.below(6) {
